@@ -119,6 +119,28 @@ Theorem C16_fault_total : forall c w o k ft, fault_ok ft ->
   w_sv (world_of r) = w_sv w /\ faulted_outcome o ft (outcome_of r).
 Proof. exact fault_total. Qed.
 
+(* The answer to a revision-guarded write is lost on the wire after the server has processed the request
+   (fault FLost, excluded from C16_fault_total by fault_ok): add / commit / safe delete end in the transport
+   error class - not in KeyError, not in a conflict error, not in success -, the server is in the state the
+   processed request produced, and the client's view (objects, recorded revisions, cache) is untouched. *)
+Theorem C16_lost_answer_add : forall c w x ce t, nth_error (heap (w_cl w)) x = Some ce ->
+  step c (Some (0, FLost t)) w (Add x)
+  = (mkWorld (fst (serve c (w_sv w) (mkReq PUT (doc_url c (c_id ce)) None (Some (c_val ce))))) (w_cl w),
+     OErr (transport_exn t), 1).
+Proof. exact lost_add. Qed.
+Theorem C16_lost_answer_commit : forall c w x ce url r t, nth_error (heap (w_cl w)) x = Some ce ->
+  String.eqb (c_src ce) "" = false -> parse_source (c_src ce) = Some url -> sassoc url (revs (w_cl w)) = Some r ->
+  step c (Some (0, FLost t)) w (Commit x)
+  = (mkWorld (fst (serve c (w_sv w) (mkReq PUT url (Some r) (Some (c_val ce))))) (w_cl w),
+     OErr (transport_exn t), 1).
+Proof. exact lost_commit. Qed.
+Theorem C16_lost_answer_safe_delete : forall c w x ce r t, nth_error (heap (w_cl w)) x = Some ce ->
+  sassoc (doc_url c (c_id ce)) (revs (w_cl w)) = Some r ->
+  step c (Some (0, FLost t)) w (Discard x true)
+  = (mkWorld (fst (serve c (w_sv w) (mkReq DELETE (doc_url c (c_id ce)) (Some r) None))) (w_cl w),
+     OErr (transport_exn t), 1).
+Proof. exact lost_safe_delete. Qed.
+
 (* Identifiers of any shape: quoting is injective (the server's decoding inverts it), the document URL
    recovered from an object's `source` by commit/update is the very string used as revision-store key
    and request URL by add/get/discard/contains, and the server routes it to the document named by the
